@@ -30,6 +30,33 @@ Definition is_marker (x : name) : bool :=
 (* the to_pop loop: every marker entry is removed from kex_algo_list, wherever it stands *)
 Definition strip_markers (l : list name) : list name := filter (fun x => negb (is_marker x)) l.
 
+(* ... literally, as the source does it:
+     to_pop = []
+     for i, algo in enumerate(kex_algo_list):
+         if algo.startswith("ext-info-"): to_pop.insert(0, i)
+         elif algo.startswith("kex-strict-"): to_pop.insert(0, i)
+     for i in to_pop: kex_algo_list.pop(i)
+   list.pop(i) with i out of range raises IndexError (None here).  Proofs/C05_proofs.v shows
+   strip_markers_loop l = Some (strip_markers l) for every l, so negotiate uses the filter. *)
+Fixpoint to_pop_loop (i : nat) (l : list name) (to_pop : list nat) : list nat :=
+  match l with
+  | [] => to_pop
+  | algo :: r => to_pop_loop (S i) r (if is_marker algo then i :: to_pop else to_pop)
+  end.
+Fixpoint pop_at (i : nat) (l : list name) : option (list name) :=
+  match i, l with
+  | _, [] => None
+  | O, _ :: r => Some r
+  | S i', x :: r => match pop_at i' r with Some r' => Some (x :: r') | None => None end
+  end.
+Fixpoint pop_all (to_pop : list nat) (l : list name) : option (list name) :=
+  match to_pop with
+  | [] => Some l
+  | i :: rest => match pop_at i l with Some l' => pop_all rest l' | None => None end
+  end.
+Definition strip_markers_loop (l : list name) : option (list name) :=
+  pop_all (to_pop_loop 0 l []) l.
+
 (* Transport._filter_algorithm *)
 Definition filter_alg (prefs disabled : list name) : list name :=
   filter (fun x => negb (mem x disabled)) prefs.
@@ -254,6 +281,10 @@ Definition cfg_in_tables (c : config) : bool :=
   subset_b (p_kex c) kex_info_keys && subset_b (p_keys c) key_info_keys &&
   subset_b (p_ciphers c) cipher_info_keys && subset_b (p_macs c) mac_info_keys &&
   subset_b (p_comp c) compression_info_keys.
+
+(* Transport.__init__: gss_kex=True prepends _preferred_gsskex to the instance's kex tuple *)
+Definition init_kex (gss_kex : bool) : list name :=
+  if gss_kex then pref_gsskex ++ pref_kex else pref_kex.
 
 (* the class-level defaults, from Gen *)
 Definition default_cfg (skeys : list name) (moduli strict_kex : bool) : config :=
